@@ -706,6 +706,21 @@ class _StmtInliner:
                             for t_, r_ in zip(st.targets[0].elts, ret.elts):
                                 out.append(ast.copy_location(ast.Assign(
                                     targets=[t_], value=r_), st))
+                        elif kind == 'assign' and isinstance(
+                                ret, ast.Name) and ret.id.endswith(
+                                '_result') and ret.id.startswith('_inl') \
+                                and len(st.targets) == 1 and isinstance(
+                                st.targets[0], ast.Name):
+                            # the helper's result variable (introduced when
+                            # its returns were brought to a single exit) is
+                            # only written at the end of each path: it can
+                            # be the caller's target itself
+                            tname = st.targets[0].id
+                            for b_ in body:
+                                for x in ast.walk(b_):
+                                    if isinstance(x, ast.Name) and \
+                                            x.id == ret.id:
+                                        x.id = tname
                         elif kind == 'assign':
                             out.append(ast.copy_location(ast.Assign(
                                 targets=st.targets,
